@@ -5,6 +5,7 @@ import (
 	"fmt"
 	"strings"
 	"sync"
+	"time"
 
 	"go.amzn.com/lambda/appctx"
 	"go.amzn.com/lambda/interop"
@@ -15,6 +16,19 @@ import (
 type RecEvents struct {
 	telemetry.NoOpEventsAPI
 	log *Log
+	// SlowMs: a slow telemetry sink - the named Send* call takes this long (after it was recorded)
+	SlowMs map[string]int
+	slowMu sync.Mutex
+}
+
+func (r *RecEvents) slow(op string) {
+	r.slowMu.Lock()
+	ms := r.SlowMs[op]
+	delete(r.SlowMs, op) // the first occurrence only
+	r.slowMu.Unlock()
+	if ms > 0 {
+		time.Sleep(time.Duration(ms) * time.Millisecond)
+	}
 }
 
 var _ interop.EventsAPI = (*RecEvents)(nil)
@@ -32,6 +46,7 @@ func (r *RecEvents) SetCurrentRequestID(id interop.RequestID) {
 
 func (r *RecEvents) SendInitStart(d interop.InitStartData) error {
 	r.log.Add(Event{Src: "events", Kind: "evt", Op: "InitStart", Extra: map[string]string{"phase": string(d.Phase), "type": string(d.InitializationType), "fn": d.FunctionName, "ver": d.FunctionVersion}})
+	r.slow("InitStart")
 	return nil
 }
 
@@ -52,6 +67,7 @@ func (r *RecEvents) SendRestoreRuntimeDone(d interop.RestoreRuntimeDoneData) err
 
 func (r *RecEvents) SendInvokeStart(d interop.InvokeStartData) error {
 	r.log.Add(Event{Src: "events", Kind: "evt", Op: "InvokeStart", ID: d.RequestID})
+	r.slow("InvokeStart")
 	return nil
 }
 
